@@ -180,6 +180,7 @@ from vgi_rpc.rpc._wire import (
     _dispatch_log_or_error,
     _drain_stream,
     _flush_collector,
+    _flush_collector_logs,
     _read_batch_with_log_check,
     _read_raw_stream_header,
     _read_request,
@@ -282,6 +283,7 @@ __all__ = [
     "_drain_stream",
     "_emit_access_log",
     "_flush_collector",
+    "_flush_collector_logs",
     "_format_signature",
     "_generate_request_id",
     "_get_auth_and_metadata",
